@@ -3,6 +3,7 @@
 package engines
 
 import (
+	"encoding/json"
 	"fmt"
 	"os"
 	"path/filepath"
@@ -40,6 +41,7 @@ type dscenario struct {
 	pass        string
 	key         string
 	nsxExtra    bool     // NSX: foreign (non-Netspoc) objects on the manager
+	addrs       []string // HTTPS: management addresses in ip_list, "SIM" = host:port of the simulator; the run has no SIMULATE_ROUTER
 	procEnv     []string // production-stack runs: extra environment of the process
 	procStdout  *os.File // production-stack runs: standard output of the process (nil: collected)
 	panDirtyBy  string   // PAN-OS: candidate configuration carries uncommitted changes of this admin
@@ -191,8 +193,22 @@ func runDialogue(scr *core.Scratch, sc *dscenario, o runOpts) *drun {
 		}
 		os.Setenv("SIMULATE_ROUTER", "simulated-device")
 	} else {
-		os.Setenv("SIMULATE_ROUTER", web.Start())
+		simURL := web.Start()
+		os.Setenv("SIMULATE_ROUTER", simURL)
 		defer web.Close()
+		if sc.addrs != nil {
+			// the tool builds its URLs from ip_list itself
+			os.Unsetenv("SIMULATE_ROUTER")
+			var names, ips []string
+			for _, a := range sc.addrs {
+				if a == "SIM" {
+					a = strings.TrimPrefix(simURL, "https://")
+				}
+				names, ips = append(names, sc.dn()), append(ips, a)
+			}
+			info, _ := json.Marshal(map[string]any{"model": sc.devType, "name_list": names, "ip_list": ips})
+			os.WriteFile(filepath.Join(code, sc.dn()+".info"), info, 0644)
+		}
 	}
 	codeFile := filepath.Join(code, sc.dn())
 	logDir := filepath.Join(work, "drclog")
